@@ -166,6 +166,27 @@ def gen_inputs(tier):
         for e in exprs:
             for hn, h in hosts.items():
                 yield ("typestruct/" + hn, {"model.yml": HOST + "G<T>: T*\n" + h % q(e)}, PKG)
+    # (2d) postfix chains in computed fields: atom x optional unary minus x every sequence of <= 2 (quick) / 3 postfix operators
+    #      (conversion, member access, subscripts, calls) - the operators whose precedence interacts in the expression parser
+    atoms = ["x", "v", "m", "r", "a", "1"]
+    posts = [" as int", " as long", " as Y", ".x", ".f", "[0]", "[]", "[0, 1]", "['k']", "()", "(0)"]
+    for atom in atoms:
+        for pre in ("", "-"):
+            for n in range(1, (2 if quick else 3) + 1):
+                for chain in itertools.product(posts, repeat=n):
+                    e = pre + atom + "".join(chain)
+                    yield ("postfix/%d" % n, {"model.yml": HOST.replace("E: !enum", "  computedFields:\n    c: %s\nE: !enum" % q(e), 1)}, PKG)
+    # (2e) reference cycles reached from every host position, incl. the base type of an enum / flags
+    cyc = "CA: CB\nCB: CA\nRC: !record\n  fields:\n    r: RC\nCG<T>: CG<T>\n"
+    chosts = dict(hosts)
+    chosts["enumbase"] = "W: !enum\n  base: %s\n  values: [a]\n"
+    chosts["flagsbase"] = "W: !flags\n  base: %s\n  values: [a]\n"
+    chosts["alias"] = "W: %s\n"
+    chosts["computed-as"] = "W: !record\n  fields:\n    w: int\n  computedFields:\n    c: w as %s\n"
+    for base in ("CA", "CB", "RC", "CG<int>"):
+        for t in [""] + simple_tails:
+            for hn, h in chosts.items():
+                yield ("cycle/" + hn, {"model.yml": HOST + "G<T>: T*\n" + cyc + h % q(base + t)}, PKG)
     # (2c) every import graph on <= 3 packages (termination and located errors of the loader; verdicts are C18's business)
     import c18
     for n in range(1, 4):
@@ -193,6 +214,23 @@ def gen_inputs(tier):
     for n in range(0, nb + 1):
         for bs in itertools.product(BYTES, repeat=n):
             yield ("manifest/bytes", {"model.yml": "X: int\n"}, b"".join(bs))
+    # (4b) import / version paths: the package itself, its parent, sub-directories, paths through '..', missing directories
+    mfiles = {"model.yml": "X: int\nPz: !protocol\n  sequence:\n    a: X\n", "sub/_package.yml": "namespace: T\n", "sub/model.yml": "X: long\nPz: !protocol\n  sequence:\n    a: X\n",
+              "imp/_package.yml": "namespace: Imp\n", "imp/model.yml": "Z: int\n", "imp2/_package.yml": "namespace: Imp2\nimports:\n  - ..\n", "imp2/model.yml": "Z: int\n"}
+    paths = [".", "./", "sub/..", "sub", "nosuch", "''", "imp", "..", "imp/../.", "imp2", "sub/../sub"]
+    for vp in [None] + paths:
+        for ip in [None] + paths:
+            if vp is None and ip is None:
+                continue
+            m = "namespace: T\n"
+            if ip is not None:
+                m += "imports:\n  - %s\n" % ip
+            if vp is not None:
+                m += "versions:\n  v0: %s\n" % vp
+                if vp in (".", "sub"):
+                    m2 = m + "  v1: %s\n" % ("sub" if vp == "." else ".")
+                    yield ("manifest/paths", mfiles, m2)
+            yield ("manifest/paths", mfiles, m)
 
 
 _W = {}
@@ -237,7 +275,13 @@ def run_batch(batch):
     d, h = _W["dir"], _W["h"]
     out = []
     counts = {}
+    hangs = {}
     for fam, files, pkg in batch:
+        if hangs.get(fam.split("/")[0], 0) >= 6:
+            # this family already hung six times in this batch (20 s each): the defect is established, the rest of the batch is
+            # not evaluated and the run is reported as not exhaustive
+            counts[("skipped-after-repeated-hangs", "bad")] = counts.get(("skipped-after-repeated-hangs", "bad"), 0) + 1
+            continue
         root = d
         if fam.startswith("importgraph"):
             for sub in os.listdir(d):
@@ -261,6 +305,8 @@ def run_batch(batch):
             files = {k: v for k, v in files.items()}
             files.setdefault("model.yml", "")
         cls, detail = classify(res)
+        if cls == "hang":
+            hangs[fam.split("/")[0]] = hangs.get(fam.split("/")[0], 0) + 1
         if cls not in ("ok", "error") and (cls == "hang" or cls.startswith("crash")) and b"300000000" in (
                 files["model.yml"] if isinstance(files["model.yml"], bytes) else files["model.yml"].encode()):
             cls = "resource-exhaustion/huge-array-dimension-count"
@@ -320,6 +366,8 @@ def main(tier):
             for (fam, cls), n in counts.items():
                 fams[(fam, cls)] = fams.get((fam, cls), 0) + n
                 total += n
+                if fam == "skipped-after-repeated-hangs":
+                    chk.exhaustive = False
             for fam, cls, detail, files, pkg in out:
                 bad.setdefault(cls, []).append((fam, detail, files, pkg))
             if chk.out_of_time():
